@@ -2,8 +2,12 @@ package checks
 
 import (
 	"fmt"
+	"regexp"
 	"runtime/debug"
+	"sort"
 	"strings"
+
+	"pgregory.net/rapid"
 
 	"github.com/vedadiyan/genql"
 	"verifharness/val"
@@ -139,4 +143,84 @@ func ReadSel(doc any, selector string) (v any, errText string, panicText string)
 		return nil, err.Error(), ""
 	}
 	return rs, "", ""
+}
+
+// ------------------------------------------------------------------------------------------------
+// Envelope: ways of running one and the same query that must not change its result. The
+// reference-based checks draw an envelope per case so that every oracle is also exercised under
+// irrelevant options, natively built Go tables, the Wrapped spelling and a second use of the input.
+
+type Envelope struct {
+	PG      bool `json:"pg,omitempty"`       // PostgresEscapingDialect on (the query uses no double quotes)
+	Arrays  bool `json:"arrays,omitempty"`   // IdiomaticArrays on (the query uses no brackets outside quotes)
+	Wrapped bool `json:"wrapped,omitempty"`  // Wrapped(): FROM <table> is rewritten to FROM root.<table>
+	MapRows bool `json:"map_rows,omitempty"` // tables are handed over as []map[string]any instead of []any
+	Twice   bool `json:"twice,omitempty"`    // the query is executed twice on the same input object
+}
+
+func genEnvelope(t *rapid.T, label string) Envelope {
+	if rapid.IntRange(0, 2).Draw(t, label+".plain") != 0 {
+		return Envelope{}
+	}
+	b := rapid.IntRange(1, 31).Draw(t, label+".bits")
+	return Envelope{PG: b&1 != 0, Arrays: b&2 != 0, Wrapped: b&4 != 0, MapRows: b&8 != 0, Twice: b&16 != 0}
+}
+
+func (e Envelope) Labels() []string {
+	var l []string
+	for name, on := range map[string]bool{"envelope:PostgresEscapingDialect": e.PG, "envelope:IdiomaticArrays": e.Arrays, "envelope:Wrapped": e.Wrapped, "envelope:[]map-tables": e.MapRows, "envelope:executed-twice": e.Twice} {
+		if on {
+			l = append(l, name)
+		}
+	}
+	sort.Strings(l)
+	return l
+}
+
+var fromTableRe = regexp.MustCompile(`\bFROM (\w+)\b`)
+
+// Exec runs sql on doc inside the envelope. doc must be a private copy (it may be re-shaped).
+func (e Envelope) Exec(doc map[string]any, sql string) Out {
+	if e.MapRows {
+		for k, v := range doc {
+			if rows, ok := v.([]any); ok {
+				typed := make([]map[string]any, 0, len(rows))
+				all := true
+				for _, r := range rows {
+					m, ok := r.(map[string]any)
+					if !ok {
+						all = false
+						break
+					}
+					typed = append(typed, m)
+				}
+				if all {
+					doc[k] = typed
+				}
+			}
+		}
+	}
+	o := Opts{PG: e.PG, Arrays: e.Arrays}
+	// back references (`<-table`) are spelled relative to the caller's document: leave those alone
+	if e.Wrapped && !strings.Contains(sql, "<-") {
+		o.Wrapped = true
+		sql = fromTableRe.ReplaceAllStringFunc(sql, func(m string) string {
+			name := strings.TrimPrefix(m, "FROM ")
+			if _, ok := doc[name]; ok {
+				return "FROM root." + name
+			}
+			return m
+		})
+	}
+	out := Run(doc, sql, o)
+	if e.Twice && out.OK() {
+		again := Run(doc, sql, o)
+		if !again.OK() {
+			return Out{Err: "second execution on the same input object failed: " + again.Describe() + " (first: " + out.Describe() + ")"}
+		}
+		if !val.MultisetEqual(out.Rows, again.Rows) {
+			return Out{Err: "second execution on the same input object returned " + val.JSON(again.Rows) + ", the first " + val.JSON(out.Rows)}
+		}
+	}
+	return out
 }
